@@ -94,6 +94,7 @@ def check_function(repo, finfo, res):
         pths, _ = paths.function_paths(finfo.node, limit=2048, strict=False)
         verdicts = set()
         bad_use = None
+        fail_ret = None
         idx = STATUS_FUNCS[fname]
         for ev, ex in pths:
             status, factors, checked, seen = set(), set(), False, False
@@ -147,6 +148,11 @@ def check_function(repo, finfo, res):
                     if _names_load(e[1]) & status:
                         if all_zero(e[1], e[2], status):
                             checked = True
+                        elif all_zero(e[1], not e[2], status) and ex == 'return':
+                            # the branch taken when SOME factorisation failed ends in a return: the failure is answered (a fallback solution, the input,
+                            # a warning) instead of raised
+                            verdicts.add('failure-returns')
+                            fail_ret = e[1]
                         elif ex != 'raise' and not all_zero(e[1], not e[2], status):
                             verdicts.add('weak-check')
                             bad_use = bad_use or e[1]
@@ -156,6 +162,10 @@ def check_function(repo, finfo, res):
                 # factor never used on this path: nothing to protect
                 pass
         ok = not (verdicts & {'use-before-check', 'unbound'})
+        if 'failure-returns' in verdicts:
+            res.add(Finding('C10.STATUS', finfo, 'on the path where the status of %s reports a failed factorisation (`%s`) the function returns a value instead of raising: '
+                            'a matrix that is not positive definite is answered with some vector' % (fname, src(fail_ret)[:70]), node=callx,
+                            construct='failure path returns ' + norm_construct(callx, finfo.node)))
         if 'weak-check' in verdicts and not ok:
             res.add(Finding('C10.STATUS', finfo, 'the check on the status of %s (`%s`) does not establish that EVERY factorisation of the batch '
                             'succeeded: a batch with some failed items passes it' % (fname, src(bad_use)[:70]), node=callx,
@@ -587,6 +597,21 @@ def rule_cgrec(repo, tier):
     if not loops:
         raise AnalysisError('C10.CGREC: CG.forward has no iteration loop')
     loop = loops[0]
+    # the system that is solved is the one that was given: A and b are not replaced by preconditioned products.  M A is symmetric only when M and A commute (CG
+    # needs a symmetric operator), and a stopping rule on |M r| <= tol |M b| is not the one the property states.
+    mname = next((a.arg for a in f.node.args.args + f.node.args.kwonlyargs if a.arg == 'M'), None)
+    for n in ast.walk(f.node):
+        if isinstance(n, ast.Assign) and mname:
+            tg = n.targets[0]
+            pairs = list(zip(tg.elts, n.value.elts)) if isinstance(tg, ast.Tuple) and isinstance(n.value, ast.Tuple) and len(tg.elts) == len(n.value.elts) else [(tg, n.value)]
+            for t, v in pairs:
+                if isinstance(t, ast.Name) and t.id in (aname, bname):
+                    folded = any(isinstance(x, ast.Name) and x.id == mname for x in ast.walk(v))
+                    res.inst({'function': f.fq, 'system re-bound': src(n)[:60], 'by a product with the preconditioner': folded}, ('rebind', t.id, src(v)[:40]))
+                    if folded:
+                        res.add(Finding('C10.CGREC', f, '`%s` replaces the %s of the system by a product with the preconditioner: the recurrence then runs on M A (not symmetric '
+                                        'unless M and A commute) and the stopping rule compares |M r| with tol |M b|' % (src(n)[:60], 'matrix' if t.id == aname else 'right-hand side'),
+                                        node=n, construct='system folded with M|' + t.id))
     # in-place updates inside the loop:  v += e / v -= e / v.add_(e) / v.sub_(e)
     upd = {}
     for n in ast.walk(loop):
